@@ -111,7 +111,8 @@ def canon_obs(obs):
     out = []
     for step in obs:
         chs, lim, st = step
-        loc, dests, tstate, stats, ctrs, bad, rsl = st
+        loc, dests, tstate, stats, ctrs, bad, rsl = st[:7]
+        views = st[7] if len(st) > 7 else [[], [], []]
         # destination ids: only the id<->prefix relation of the step is compared
         rel = {}
         for c in list(chs) + list(loc):
@@ -125,7 +126,9 @@ def canon_obs(obs):
             loc = [[c[0], 0] + c[2:] for c in loc]
         out.append([sorted(chs, key=lambda c: c[0]), lim,
                     [sorted(loc, key=lambda c: c[0]), sorted(dests, key=lambda d: d[0]), tstate, stats, ctrs, bad,
-                     [[a, sorted(per, key=lambda x: x[0])] for a, per in rsl]]])
+                     [[a, sorted(per, key=lambda x: x[0])] for a, per in rsl],
+                     [sorted(views[0], key=lambda x: x[0]), sorted(views[1], key=lambda x: x[0]),
+                      [[a, sorted(per, key=lambda x: x[0])] for a, per in views[2]]]]])
     return out
 
 # ------------------------------------------------------------- reference RIB
